@@ -894,6 +894,8 @@ func (o Obj) Doc() M {
 		spec := M{"ports": ps}
 		if len(s.Selector) > 0 {
 			spec["selector"] = jLabels(s.Selector)
+		} else if strHash(s.NS+"/"+s.Name)%2 == 0 {
+			spec["selector"] = M{} // an empty selector is written out: like an absent one it selects no pod
 		}
 		return M{"apiVersion": "v1", "kind": "Service", "metadata": M{"name": s.Name, "namespace": s.NS}, "spec": spec}
 	case "ing":
